@@ -144,6 +144,7 @@ def build(env=None):
     item.c = cc.IntField()
     item.s = cc.SecureField(method="xor")
     s.items = cc.ListField(item)
+    s.dl = cc.DictField(cc.StringField(), cc.ListField(item))        # configurations inside a container inside a container
     ts = cc.Schema()
     ts.c = cc.StringField(default="t")
     s.t = cc.make_type(ts, "CT19")
@@ -162,6 +163,7 @@ STATES = {
     "everything": {"s": "h", "i": 2, "f": 0.5, "b": "YQ==", "ch": "p", "sec": "s", "l": [3], "d": {"k": 2}, "any": [1], "sub": {"c": "c", "deep": {"e": "e"}},
                    "items": [{"c": 9, "s": "z"}], "t": {"c": "q"}},
     "dynamic": {"extra": {"k": [1, "two"]}},
+    "nested-items": {"dl": {"k": [{"c": 1, "s": "nested-secret-1"}, {"c": 2}], "j": []}, "items": [{"c": 3, "s": "i3"}]},
     "white-space": {"s": "  padded  ", "sub": {"c": "trailing newline\n"}, "any": [" x ", "   "], "ud": {"k": "\tv "}, "t": {"c": " t"}, "extra": " dyn "},
 }
 FORMATS = ["json", "yaml", "xml", "bson", "pickle"]
@@ -169,7 +171,7 @@ PRIORS = ["same-format", "other-format", "absent"]
 
 
 def bounds(tier):
-    return {"states": list(STATES) if tier == "thorough" else ["scalars", "secrets", "items-2", "everything", "bytes-digest", "containers", "nulls", "white-space"],
+    return {"states": list(STATES) if tier == "thorough" else ["scalars", "secrets", "items-2", "everything", "bytes-digest", "containers", "nulls", "white-space", "nested-items"],
             "formats": FORMATS, "priors": PRIORS, "exception_classes": sorted(exc_classes(tier))}
 
 
@@ -187,7 +189,7 @@ def jobs(tier):
 
 # a successful save loads back: key files of their own one and two levels down, and a process environment in which
 # every variable the schema is bound to exists but is empty
-VARIANTS = ["key-on-sub", "key-on-deep", "key-on-sub-and-deep", "env-empty", "env-empty+key-on-deep", "format-options"]
+VARIANTS = ["key-on-sub", "key-on-deep", "key-on-sub-and-deep", "env-empty", "env-empty+key-on-deep", "format-options", "after-masked-render"]
 OPTIONS = {"json": {"pretty": False}, "yaml": {"root_key": "CFG"}, "xml": {"root_tag": "settings"}, "bson": {}, "pickle": {}}
 
 
@@ -240,6 +242,10 @@ def _loadback(job, ctx):
                     fp = "C19|loadback|%s|%s|%s|" % (variant, fmt, into)
                     opts = OPTIONS[fmt] if variant == "format-options" else {}
                     try:
+                        if variant == "after-masked-render":
+                            # the same object was rendered for display first (masked, with virtual fields): none of that may stick
+                            cfg.to_tree(virtual=True, sensitive_mask="*")
+                            cfg.dumps(fmt, sensitive_mask="<hidden>", virtual=True)
                         cfg.save(dest, fmt, **opts)
                         if opts:
                             with open(dest, "rb") as fh:
@@ -420,7 +426,7 @@ def _norm(d):
     for k, v in d.items():
         if isinstance(v, dict) and k in ("sub", "deep", "t"):
             out[k] = _norm(v)
-        elif k in ("l", "d", "items") and (v is None or len(v) == 0):
+        elif k in ("l", "d", "items", "dl") and (v is None or len(v) == 0):
             out[k] = "<unset-or-empty>"
         elif k == "items":
             out[k] = [_norm(x) for x in v]
@@ -537,6 +543,9 @@ NATURAL = [
     ("tuple-key-in-any", {"any": {"$": "d", "v": [["k", {"$": "d", "v": [[{"$": "t", "v": [1, 2]}, "v"]]}]]}}, None, "ok"),
     ("tuple-key-in-list", {"any": [{"$": "d", "v": [[{"$": "t", "v": [1]}, "v"], ["s", 1]]}]}, None, "ok"),
     ("lone-surrogate", {"s": "\ud800"}, None, "ok"),
+    ("surrogate-in-secret", {"sec": "pa\udcffss"}, None, "ok"),
+    ("surrogate-in-xor-secret", {"sub.deep.e": "pa\udcffss"}, None, "ok"),
+    ("surrogate-in-item-secret", {"items": [{"c": 1, "s": "z\udce9"}]}, None, "ok"),
     ("control-char", {"s": "a\x00b"}, None, "ok"),
     ("nan", {"f": {"$": "f", "v": "nan"}}, None, "ok"),
     ("secret-malformed-keyfile", {"sec": "top"}, None, "short"),
